@@ -339,6 +339,22 @@ func classifyEffects(eff map[string]bool, sortedLater func(v string) bool) strin
 func unstableSortKey(info *types.Info, c *ast.CallExpr) bool {
 	bad := false
 	for _, a := range c.Args[1:] {
+		// a token.Pos orders positions of ONE file (its base depends on load order): reading it
+		// is fine once the comparator has compared the files themselves (a string field or
+		// method named …Path / …File… / Filename) earlier in its text
+		fileCompared := token.NoPos
+		ast.Inspect(a, func(n ast.Node) bool {
+			if se, ok := n.(*ast.SelectorExpr); ok {
+				if t := info.TypeOf(se); t != nil && t.String() == "string" {
+					if nm := se.Sel.Name; strings.Contains(nm, "Path") || strings.Contains(nm, "File") {
+						if !fileCompared.IsValid() || se.Pos() < fileCompared {
+							fileCompared = se.Pos()
+						}
+					}
+				}
+			}
+			return true
+		})
 		ast.Inspect(a, func(n ast.Node) bool {
 			e, ok := n.(ast.Expr)
 			if !ok {
@@ -346,8 +362,21 @@ func unstableSortKey(info *types.Info, c *ast.CallExpr) bool {
 			}
 			if t := info.TypeOf(e); t != nil {
 				switch t.String() {
-				case "go/token.Pos", "uintptr", "unsafe.Pointer":
+				case "go/token.Pos":
+					if !(fileCompared.IsValid() && fileCompared < e.Pos()) {
+						bad = true
+					}
+				case "uintptr", "unsafe.Pointer":
 					bad = true
+				}
+			}
+			// a key computed by a gleece function that prints a token.Pos into it (SymbolKey.BaseId:
+			// "name@pos@path") is as run-dependent as the position itself
+			if call, isCall := n.(*ast.CallExpr); isCall && curWorld != nil {
+				if name := calleeOfCall(info, call); name != "" && curWorld.printsPos(name, 0) {
+					if !(fileCompared.IsValid() && fileCompared < call.Pos()) {
+						bad = true
+					}
 				}
 			}
 			if bl, ok := n.(*ast.BasicLit); ok && strings.Contains(bl.Value, "%p") {
@@ -357,4 +386,48 @@ func unstableSortKey(info *types.Info, c *ast.CallExpr) bool {
 		})
 	}
 	return bad
+}
+
+// printsPos: the gleece function (or one it calls, two levels) formats a value of type
+// token.Pos into a string.
+func (w *World) printsPos(key string, depth int) bool {
+	fi := w.Funcs[key]
+	if fi == nil || fi.Decl.Body == nil || depth > 2 {
+		return false
+	}
+	if r, ok := w.printsPosMemo[key]; ok {
+		return r
+	}
+	if w.printsPosMemo == nil {
+		w.printsPosMemo = map[string]bool{}
+	}
+	w.printsPosMemo[key] = false
+	info := fi.Pkg.TypesInfo
+	found := false
+	ast.Inspect(fi.Decl.Body, func(n ast.Node) bool {
+		call, ok := n.(*ast.CallExpr)
+		if !ok || found {
+			return !found
+		}
+		name := calleeOfCall(info, call)
+		if strings.HasPrefix(name, "fmt.Sprint") || strings.HasPrefix(name, "fmt.Append") || strings.HasPrefix(name, "strconv.") {
+			for _, a := range call.Args {
+				if containsNode(a, func(m ast.Node) bool {
+					e, ok := m.(ast.Expr)
+					if !ok {
+						return false
+					}
+					t := info.TypeOf(e)
+					return t != nil && t.String() == "go/token.Pos"
+				}) {
+					found = true
+				}
+			}
+		} else if name != "" && w.printsPos(name, depth+1) {
+			found = true
+		}
+		return !found
+	})
+	w.printsPosMemo[key] = found
+	return found
 }
